@@ -4,6 +4,7 @@ way a user-written collator would (hooks: `default_collate_mode`, `collate(batch
 """
 from __future__ import annotations
 
+import numpy as np
 import torch
 from torch.utils.data import default_collate
 
@@ -13,13 +14,17 @@ from kappadata.wrappers.mode_wrapper import ModeWrapper
 
 SEQ_ITEMS = ("x", "tok", "y")            # variable-length tensor fields (ndim > 0)
 FIXED_TENSOR_ITEMS = ("vec",)            # tensor with ndim > 0 whose length never varies
-OTHER_ITEMS = ("w", "seqlen", "class", "name", "index")  # 0-dim tensor, python int, python int, str, ModeWrapper's index
+# 0-dim tensor, python int, python int, str, ModeWrapper's index, python float (values float32 cannot hold), python bool,
+# numpy float64 scalar, numpy int16 scalar
+OTHER_ITEMS = ("w", "seqlen", "class", "name", "index", "fl", "flag", "npf", "npi")
+PY_FLOATS = (16777217.0, 0.1, 1e-50, 3.5, -2.0 ** 60 - 1.0, 1.0 / 3.0, 123456789.125, 2.0)
 FLOAT_ITEMS = ("x", "y", "vec", "w")     # items a member may edit arithmetically
 
 
 class SeqDS(KDDataset):
     """sample i: x float32 (la[i], *trail), tok int64 (la[i],), y float64 (lb[i], 2), vec float32 (3,), w 0-dim float32,
-    seqlen int, class int, name str. All tensor contents are non-zero and encode (i, position), so that padding zeros,
+    seqlen int, class int, name str, fl python float (some not representable in float32), flag python bool, npf numpy
+    float64 scalar, npi numpy int16 scalar. All tensor contents are non-zero and encode (i, position), so that padding zeros,
     sample order and field identity can be read off the output. Every loader records ctx entries of its sample."""
 
     def __init__(self, la, lb, trail=()):
@@ -77,6 +82,26 @@ class SeqDS(KDDataset):
         i = int(idx)
         self._rec(ctx, "class", i)
         return i % 5
+
+    def getitem_fl(self, idx, ctx=None):
+        i = int(idx)
+        self._rec(ctx, "fl", i)
+        return PY_FLOATS[i % len(PY_FLOATS)] + (i // len(PY_FLOATS))
+
+    def getitem_flag(self, idx, ctx=None):
+        i = int(idx)
+        self._rec(ctx, "flag", i)
+        return i % 3 != 1
+
+    def getitem_npf(self, idx, ctx=None):
+        i = int(idx)
+        self._rec(ctx, "npf", i)
+        return np.float64(PY_FLOATS[(i + 1) % len(PY_FLOATS)])
+
+    def getitem_npi(self, idx, ctx=None):
+        i = int(idx)
+        self._rec(ctx, "npi", i)
+        return np.int16(i - 3)
 
     def getitem_name(self, idx, ctx=None):
         i = int(idx)
